@@ -160,6 +160,13 @@ def o3b(h, st):
     h.check("tr(1-RDM) == number of active electrons (within the sampling error)", abs(np.trace(one) - 2) < 0.05, detail=str(np.trace(one)))
     s.ansatz.update_var_params(th)
     h.check("ansatz circuit left as it was (basis-change gates removed again)", snapshot([g.__dict__ for g in s.ansatz.circuit._gates]) == gates_before)
+    # resampling route (bootstrapping of error bars): the frequencies saved by the call above are resampled with the backend's shot number
+    saved = snapshot(s.rdm_freq_dict)
+    one_r, two_r = h.call(VQ, "VQESolver.get_rdm", s, th, True)
+    e_res = mol.energy_from_rdms(one_r, two_r)
+    h.check("resampled RDMs: energy within the sampling error of the exact energy", abs(e_res - exact) < 0.04, detail=f"{e_res} vs {exact}")
+    h.check("resampled RDMs: tr(1-RDM) == number of active electrons (within the sampling error)", abs(np.trace(one_r) - 2) < 0.06, detail=str(np.trace(one_r)))
+    h.check("resampling leaves the saved frequencies unchanged", snapshot(s.rdm_freq_dict) == saved)
     h.done()
 
 
